@@ -714,8 +714,7 @@ fn run_mixed(focus: &'static str, seed: u64, index: u64, clean: bool) -> CaseOut
     }
     stop.store(true, Ordering::SeqCst);
     // the observers call the API: if the cache is wedged they may never return, so they are not joined blindly
-    let observers_done = rt::poll_until(Duration::from_millis(500), || observers.iter().all(|o| o.is_finished()));
-    if observers_done { for o in observers { let _ = o.join(); } } else { counts.inc("observer_threads_left_behind"); std::mem::forget(observers); }
+    if rt::join_helpers("the observer threads of a mixed run to finish", observers).is_none() { counts.inc("observer_threads_left_behind"); }
     let advances = advancer.map(|a| a.join().unwrap_or(0)).unwrap_or(0);
     let trace = sched().stop_trace();
     sched().quiet();
@@ -1542,7 +1541,7 @@ pub fn run(args: &Args) -> Shard {
     let started = Instant::now();
     let mut index = from;
     let mut done = 0;
-    while done < count && started.elapsed() < budget {
+    while done < count && started.elapsed() < budget && !rt::tainted() {
         let out = match scenario.as_str() {
             "mixed" => run_mixed(focus, seed, index, clean),
             "same-key" => run_same_key(focus, seed, index),
